@@ -4,7 +4,7 @@ import re
 
 from .facts import callee, show, site, unwrap, walk
 from .symx import TooManyPaths, all_calls, cshow, known_functions, paths_of, reviewed_param_name, tshow
-from .terms import is_call, mentions, same, subterms
+from .terms import is_call, mentions, opt_polarity, same, subterms
 
 READERS = {"ipp::reader::IppReader": "std::io::Read::read_exact", "ipp::reader::AsyncIppReader": "futures_util::AsyncReadExt::read_exact"}
 PARSERS = ("ipp::parser::IppParser", "ipp::parser::AsyncIppParser")
@@ -480,6 +480,20 @@ def r_dispatch(run, F, rule="R-DISPATCH"):
             if rejected:
                 # nothing happened before the rejection
                 ok = not [c for c in p.trace if is_call(c) and c[1].startswith("ipp::") and "FromPrimitive" not in c[1]]
+        # .. and what it returns on success is the delimiter it decoded from the byte it was given: the drive loops stop on `== EndOfAttributes`
+        for p in paths_of(pd):
+            if p.kind in ("fall", "return") and p.ret[0] == "ctor" and p.ret[1].endswith("::Ok") and p.ret[2]:
+                v = p.ret[2][0]
+                while isinstance(v, tuple) and v[0] == "ok?":
+                    v = v[1]
+                if is_call(v, "std::option::Option::<T>::ok_or") and v[2]:
+                    v = v[2][0]
+                if isinstance(v, tuple) and v[0] == "proj" and str(v[2]).startswith("Some."):
+                    v = v[1]
+                ok_ret = is_call(v, "num_traits::FromPrimitive::from_u8") and v[2] and v[2][0] == ("var", "tag")
+                run.ob(rule, "parse_delimiter returns the delimiter decoded from its tag byte", ok_ret,
+                       "returns %s: the drive loop compares this value with EndOfAttributes to stop reading - a stale or other value makes it read on into the document (or stop early)" % tshow(p.ret)[:160],
+                       site(pd), key="%s|parse_delimiter|returns-decoded" % rule)
         run.ob(rule, "parse_delimiter rejects an unknown delimiter with InvalidTag(tag) before touching the state", ok, why, site(pd),
                key="%s|parse_delimiter|reject" % rule)
     return n
@@ -856,6 +870,29 @@ def r_reject(run, F, rule="R-REJECT"):
                     continue        # `Err(e) => Err(e)`: the callee's own error handed on, not a new rejection
                 # the deciding test, with integer literals erased: `len != 4`, `len != 8`, .. reached through a per-syntax table are one test
                 cen.setdefault(head(r), set()).add(re.sub(r"\b\d+\b", "#", " && ".join(cshow(c) for c in p.conds[-1:]))[:160])
+        if fn == "ipp::parser::ParserState::parse_value":
+            # the member-grouping rejection ("a value before any member name") needs a value in hand: it is decided inside the loop over the
+            # collected items, or after an item was positively taken from them - never by the mere absence of items (an empty collection,
+            # begCollection directly followed by endCollection, is well-formed and is what the encoder writes for an empty map)
+            for p in paths_of(b):
+                r = p.ret
+                if p.kind == "try" and isinstance(r, tuple) and r[0] == "err?" and isinstance(r[1], tuple) and r[1][0] == "ctor":
+                    r = r[1]
+                if not (r[0] == "ctor" and r[1].endswith("::Err") and r[2] and isinstance(r[2][0], tuple) and r[2][0][0] == "ctor" and
+                        r[2][0][1] == "ipp::parser::IppParseError::InvalidCollection"):
+                    continue
+                txt = " && ".join(cshow(c) for c in p.conds)
+                if "MAX_COLLECTION_DEPTH" in txt or "is_empty(" in txt.split("&&")[-1] or any(
+                        c[0] in ("guard", "match", "if") and isinstance(c[1], tuple) and (c[1] == ("var", "ipp_value") or "is_empty" in tshow(c[1]) or
+                                                                                         (c[0] == "match" and any(is_call(x, "ipp::value::IppValue::parse") for x in subterms(c[1]))))
+                        for c in p.conds[-2:]):
+                    continue        # the nesting-depth and marker rejections
+                in_hand = any((c[0] == "if" and is_call(c[1], "<in-loop>") and c[2] is True) or
+                              (c[0] == "match" and opt_polarity(c) is True and any(isinstance(x, tuple) and (x[0] == "elem" or (x[0] == "call" and str(x[1]).split("::")[-1] in ("next", "first", "get", "split_first", "peek"))) for x in subterms(c[1])))
+                              for c in p.conds)
+                run.ob(rule, "parse_value: a collection is refused for a misplaced value only with that value in hand", in_hand,
+                       "InvalidCollection is returned under [%s] without an item of the collection having been taken: an empty collection would be refused" % txt[-260:],
+                       site(b), key="%s|%s|member-rejection-needs-item" % (rule, fn))
         allowed = T.get(fn, {})
         for h, conds in cen.items():
             n += 1
